@@ -15,7 +15,7 @@ def CacheOk {D : Type} (H : Alg → Bytes → D) (blocks : List Block) (c : Cach
 
 theorem lookup_add_same {D : Type} (c : Cache D) (ns : String) (off len : Int) (d : D) :
     (c.add ns off len d).lookup ns off len = some d := by
-  simp [Cache.add, Cache.lookup, List.find?]
+  simp [Cache.add, Cache.lookup]
 
 theorem lookup_add_other {D : Type} (c : Cache D) (ns ns' : String) (off len off' len' : Int) (d : D)
     (h : ¬ (ns = ns' ∧ off = off' ∧ len = len')) :
@@ -27,7 +27,7 @@ theorem lookup_add_other {D : Type} (c : Cache D) (ns ns' : String) (off len off
       · right; intro h3; exact h ⟨h1, h2, h3⟩
       · left; right; exact h2
     · left; left; exact h1
-  simp [Cache.add, Cache.lookup, List.find?, this]
+  simp [Cache.add, Cache.lookup, this]
 
 theorem lookup_sound {D : Type} (H : Alg → Bytes → D) (blocks : List Block) (c : Cache D)
     (hc : CacheOk H blocks c) (a : Alg) (off len : Int) (d : D)
